@@ -28,9 +28,10 @@ EXTRA_LEVELS = ("Precursor", "ModifiedPeptide", "PeptideGroup")
 
 
 # ----------------------------------------------------------------------------------------------- generator
-def gen_table(rng, n_rows, extra, id0=0, scan0=0, p_target=None, label_by_peptide=None):
+def gen_table(rng, n_rows, extra, id0=0, scan0=0, p_target=None, label_by_peptide=None, overlap=None):
     """A PIN-like table with n_rows PSMs: spectra of multiplicity 1..3, peptides shared between spectra, a
-    target/decoy mix and optional extra level columns. SpecId values are unique (also across collections)."""
+    target/decoy mix and optional extra level columns. SpecId values are unique (also across collections).
+    overlap (class `alike`, see OVERLAP_MODES): entity names of DIFFERENT level columns may be spelled identically."""
     if p_target is None:
         p_target = rng.choice([0.35, 0.5, 0.65])
     if label_by_peptide is None:
@@ -50,6 +51,13 @@ def gen_table(rng, n_rows, extra, id0=0, scan0=0, p_target=None, label_by_peptid
                 # entities coarser or finer than the peptide, shared between spectra
                 m = max(5, n_pep // 2) if col == "PeptideGroup" else n_pep + 3
                 row[col] = "%s_%d" % (col[:2].lower(), (p * (k + 2) + int(rng.integers(3))) % m)
+                if overlap in ("shared-pool", "both"):
+                    # one name pool for all extra level columns: the same string names entities of two levels,
+                    # in the same row or in different rows
+                    row[col] = "ent_%d" % ((p * (k + 2) + int(rng.integers(3))) % m)
+                if overlap in ("as-peptide", "both") and rng.random() < (0.5 if overlap == "as-peptide" else 0.3):
+                    # e.g. an unmodified peptide: ModifiedPeptide is spelled exactly like Peptide
+                    row[col] = row["Peptide"]
             rows.append(row)
         scan += 1
     df = pd.DataFrame(rows)
@@ -59,8 +67,11 @@ def gen_table(rng, n_rows, extra, id0=0, scan0=0, p_target=None, label_by_peptid
     return df
 
 
-def gen_scores(rng, n):
-    """tie-free scores; the scale varies so that string round trips of floats are exercised"""
+def gen_scores(rng, n, zero=False):
+    """tie-free scores; the scale varies so that string round trips of floats are exercised.
+    zero (class `zero`): the vector is shifted so that exactly one score, of uniformly drawn rank but neither the
+    best nor the worst, is exactly 0.0 (a calibrated score or a raw feature used as score); the scores below it are
+    negative."""
     kind = rng.choice(["perm", "normal", "small"])
     if kind == "perm":
         s = rng.permutation(n).astype(float) - n // 3 + round(float(rng.random()), 4)
@@ -68,6 +79,13 @@ def gen_scores(rng, n):
         s = rng.normal(0, 3, n)
     else:
         s = rng.normal(0, 1e-3, n)
+    if zero:
+        while True:
+            i = np.argsort(s)[int(rng.integers(1, n - 1))]
+            t = s - s[i]
+            if len(np.unique(t)) == n and int(np.sum(t == 0.0)) == 1:
+                s = t
+                break
     assert len(np.unique(s)) == n
     return s
 
@@ -97,23 +115,62 @@ def gen_config(rng, tier):
     return cfg
 
 
+OVERLAP_MODES = ("as-peptide", "shared-pool", "both")
+CLASS_TAG = {"alike": "entity-spelled-alike-across-levels", "zero": "zero-score-multichunk"}
+
+
+def gen_config_class(rng, tier, cls):
+    """configurations of two input classes that gen_config does not reach (key `cls`; build_case reads the keys
+    `overlap` and `zero`):
+    alike - rollup with 1-2 extra level columns in which entity names are spelled like names of ANOTHER level:
+            an extra column equal to the Peptide string in about half of the rows (as-peptide: the unmodified
+            peptides of a ModifiedPeptide column), two extra columns drawing from one name pool (shared-pool), or
+            both; the levels must still be de-duplicated independently of each other;
+    zero  - several sorted chunk files (CONFIDENCE_CHUNK_SIZE in {1,2,3,5,8} < number of PSMs) and, in one
+            collection, a score vector with exactly one 0.0 of uniformly drawn rank and negative scores below it."""
+    cfg = gen_config(rng, tier)
+    cfg["cls"] = cls
+    if cls == "alike":
+        mode = str(rng.choice(OVERLAP_MODES))
+        n_extra = int(rng.choice([1, 2])) if mode == "as-peptide" else 2
+        extra = [str(c) for c in rng.choice(EXTRA_LEVELS, n_extra, replace=False)]
+        levels = extra + ["Peptide"]
+        if rng.random() < 0.5:
+            levels = [levels[i] for i in rng.permutation(len(levels))]
+        cfg.update(extra=extra, level_columns=levels, rollup=True, overlap=mode)
+    elif cls == "zero":
+        cfg.update(chunk=int(rng.choice([1, 2, 3, 5, 8])), zero=int(rng.integers(len(cfg["n_rows"]))))
+        cfg["n_rows"] = [max(10, x) for x in cfg["n_rows"]]
+    else:
+        raise ValueError(cls)
+    return cfg
+
+
 def build_case(cfg):
     """deterministic from cfg: list of (table, scores)"""
     rng = np.random.default_rng(cfg["seed"])
     out = []
     id0 = scan0 = 0
-    for n in cfg["n_rows"]:
+    for k, n in enumerate(cfg["n_rows"]):
         # PEP estimation (qvality) needs targets and decoys among the retained rows of every level: regenerate
         # until it can run (see _usable); after every 40 failed attempts the table gets one more row
         for attempt in range(2000):
-            df = gen_table(rng, n + attempt // 40, cfg["extra"], id0=id0, scan0=scan0)
-            sc = gen_scores(rng, len(df))
+            if cfg.get("cls"):
+                df = gen_table(rng, n + attempt // 40, cfg["extra"], id0=id0, scan0=scan0,
+                               overlap=cfg.get("overlap"))
+                sc = gen_scores(rng, len(df), zero=cfg.get("zero") == k)
+            else:
+                df = gen_table(rng, n + attempt // 40, cfg["extra"], id0=id0, scan0=scan0)
+                sc = gen_scores(rng, len(df))
             if _usable(df, sc, cfg):
                 break
         else:
             raise RuntimeError("generator could not build a usable table")
         while any(len(np.intersect1d(sc, s2)) for _, s2 in out):
-            sc = sc + 0.5 ** 9                    # scores are tie-free across collections too
+            if cfg.get("zero") == k:              # keep the exact 0.0 of this collection: move the earlier ones
+                out = [(d2, s2 + 0.5 ** 9) for d2, s2 in out]
+            else:
+                sc = sc + 0.5 ** 9                # scores are tie-free across collections too
         out.append((df, sc))
         id0 += 1000
         scan0 += 0 if rng.random() < 0.5 else 100   # collections may or may not share spectrum keys
@@ -297,11 +354,38 @@ def evaluate(cfg, tables, out, prefixes):
 def nontrivial(cfg, tables):
     """in some collection competition removes a PSM and rollup removes a further, retained one (whether or not
     the switches of this configuration are on: with a switch off the same rows must all be kept)"""
+    if cfg.get("cls") == "alike":
+        return _alike_nontrivial(cfg, tables)
+    if cfg.get("cls") == "zero":
+        return _zero_nontrivial(cfg, tables)
     for df, sc in tables:
         lev = retained_levels(df, sc, dict(cfg, dedup=True, rollup=True, level_columns=["Peptide"]))
         if len(lev["peptides"]) < len(lev["psms"]) < len(df):
             return True
     return False
+
+
+def _alike_nontrivial(cfg, tables):
+    """among the retained PSMs of some collection one string names entities of two different level columns"""
+    for df, sc in tables:
+        psms = retained_levels(df, sc, dict(cfg, rollup=False))["psms"]
+        cols = cfg["level_columns"]
+        for i, a in enumerate(cols):
+            for b in cols[i + 1:]:
+                if set(psms[a].astype(str)) & set(psms[b].astype(str)):
+                    return True
+    return False
+
+
+def _zero_nontrivial(cfg, tables):
+    """the 0.0 PSM lies (in file order) in a chunk before a chunk that holds a negative score"""
+    df, sc = tables[cfg["zero"]]
+    c = cfg["chunk"]
+    pos = np.flatnonzero(np.asarray(sc) == 0.0)
+    if c <= 0 or len(pos) != 1:
+        return False
+    neg = np.flatnonzero(np.asarray(sc) < 0)
+    return bool(len(neg) and neg.max() // c > pos[0] // c)
 
 
 ASSIGN = None      # validation scripts put a deliberately broken assign_confidence here (inherited by fork)
@@ -341,7 +425,9 @@ def _pool_map(fn, cfgs):
     if WORKERS <= 1:
         return [fn(c) for c in cfgs]
     with mp.get_context("fork").Pool(WORKERS) as pool:
-        return pool.map(fn, cfgs, chunksize=4)
+        # results come back in input order whatever the chunk size; short lists are handed out case by case so
+        # that all workers stay busy
+        return pool.map(fn, cfgs, chunksize=max(1, min(4, len(cfgs) // (4 * WORKERS))))
 
 
 def check_assign(tier, seed, n_cases=None):
@@ -361,6 +447,40 @@ def check_assign(tier, seed, n_cases=None):
         ck.case(cfg, nontrivial=nt)
         for case_id, msg in bad:
             ck.violation(case_id, msg, cfg)
+    return ck
+
+
+def check_assign_class(tier, seed, cls, n_cases=None):
+    """the same driver and oracle as check_assign on the input classes of gen_config_class"""
+    n = n_cases or ({"alike": 18, "zero": 24}[cls] if tier == "quick" else 500)
+    common = ("otherwise as assign_confidence_levels (1-3 collections of 8-30 PSMs, spectrum multiplicity 1-3, "
+              "de-dup/decoys/prefixes on and off, CSV and Parquet input, max_workers=1, qvality PEPs not checked)")
+    if cls == "alike":
+        ck = Check("assign_confidence_alike_level_names", "mokapot.confidence.assign_confidence",
+                   "random: %d configurations (seed %d) with rollup on and 1-2 extra level columns whose entity "
+                   "names are spelled like names of another level: an extra column equal to the Peptide string in "
+                   "about half of the rows, or two extra columns drawing from one name pool, or both; level order "
+                   "shuffled in half of the cases; CONFIDENCE_CHUNK_SIZE in {default,1,2,3,5,8}, tie-free scores; "
+                   "%s" % (n, seed, common),
+                   "tables from gen_table(overlap=...); oracle as in assign_confidence_levels (every level "
+                   "de-duplicated on its own column only); non-trivial = among the PSMs retained by the "
+                   "competition of some collection one string names entities of two different level columns")
+    else:
+        ck = Check("assign_confidence_zero_score", "mokapot.confidence.assign_confidence",
+                   "random: %d configurations (seed %d) with CONFIDENCE_CHUNK_SIZE in {1,2,3,5,8} and 10-30 PSMs "
+                   "per collection (several sorted chunk files are merged); in one collection the tie-free score "
+                   "vector is shifted so that exactly one score of uniformly drawn rank (not best, not worst) is "
+                   "exactly 0.0 and all lower scores are negative; 0-2 extra level columns, rollup on and off; "
+                   "%s" % (n, seed, common),
+                   "tables from gen_table, scores from gen_scores(zero=True); oracle as in "
+                   "assign_confidence_levels; non-trivial = in file order the 0.0 PSM lies in a chunk before a "
+                   "chunk that holds a negative score")
+    rng = np.random.default_rng([seed, {"alike": 31, "zero": 32}[cls]])
+    cfgs = [gen_config_class(rng, tier, cls) for _ in range(n)]
+    for cfg, (nt, bad) in zip(cfgs, _pool_map(_assign_worker, cfgs)):
+        ck.case(cfg, nontrivial=nt)
+        for case_id, msg in bad:
+            ck.violation("%s/%s" % (case_id, CLASS_TAG[cls]), msg, cfg)
     return ck
 
 
@@ -388,10 +508,14 @@ def _rollup_worker(cfg):
 
 def check_rollup_tool(tier, seed, n_cases=None):
     n = n_cases or (30 if tier == "quick" else 450)
+    n_cls = max(2, n // 10)
     ck = Check("rollup_tool", "mokapot.brew_rollup.main",
                "random: %d cases (seed %d): 1-3 prefixed collections of 12-30 PSMs; their *.psms result files "
                "written by assign_confidence (de-dup on, decoys on, CSV) are rolled up by brew_rollup --level psm "
-               "into a second directory; 0-1 extra level column (Precursor/ModifiedPeptide/PeptideGroup)" % (n, seed),
+               "into a second directory; 0-1 extra level column (Precursor/ModifiedPeptide/PeptideGroup); plus %d "
+               "cases with one extra level column that is spelled like the Peptide in about half of the rows and %d "
+               "cases in which one collection's score vector holds exactly one 0.0 with negative scores below it "
+               "(CONFIDENCE_CHUNK_SIZE in {1,2,3,5,8} while the PSM files are written)" % (n, seed, n_cls, n_cls),
                "oracle = per rollup level the best row per entity among the union of the previously written PSM "
                "rows (targets and decoys of all collections), C01 formula on those; non-trivial = several "
                "collections or a peptide occurring in more than one input row")
@@ -404,10 +528,23 @@ def check_rollup_tool(tier, seed, n_cases=None):
         cfg["extra"] = cfg["extra"][:1]
         cfg["level_columns"] = cfg["extra"] + ["Peptide"]
         cfgs.append(cfg)
+    # the two input classes of gen_config_class, here for the tool's own merge of the result files and its own
+    # per-level de-duplication
+    rng = np.random.default_rng([seed, 33])
+    for i in range(2 * n_cls):
+        cfg = gen_config_class(rng, tier, "alike" if i % 2 == 0 else "zero")
+        cfg.update(dedup=True, rollup=False, decoys=True, prefixes=True, fmt=".pin")
+        cfg["n_rows"] = [max(12, x) for x in cfg["n_rows"]]
+        if cfg["cls"] == "alike":
+            cfg.update(extra=cfg["extra"][:1], overlap="as-peptide")
+        else:
+            cfg["extra"] = cfg["extra"][:1]
+        cfg["level_columns"] = cfg["extra"] + ["Peptide"]
+        cfgs.append(cfg)
     for cfg, nt, bad in _pool_map(_rollup_worker, cfgs):
         ck.case(cfg, nontrivial=nt)
         for case_id, msg in bad:
-            ck.violation(case_id, msg, cfg)
+            ck.violation(case_id + ("/" + CLASS_TAG[cfg["cls"]] if cfg.get("cls") else ""), msg, cfg)
     return ck
 
 
@@ -470,7 +607,8 @@ def REPLAY(check_name, violation):
     inp = violation["input"]
     if isinstance(inp, str):
         inp = json.loads(inp)
-    if check_name == "assign_confidence_levels":
+    if check_name in ("assign_confidence_levels", "assign_confidence_alike_level_names",
+                      "assign_confidence_zero_score"):
         _, bad = run_case(inp)
     elif check_name == "rollup_tool":
         _, _, bad = _rollup_worker(inp)
@@ -482,9 +620,13 @@ def REPLAY(check_name, violation):
 if __name__ == "__main__":
     a = args()
     np.random.seed(a.seed)
-    emit([check_assign(a.tier, a.seed), check_rollup_tool(a.tier, a.seed)],
+    emit([check_assign(a.tier, a.seed), check_assign_class(a.tier, a.seed, "alike"),
+          check_assign_class(a.tier, a.seed, "zero"), check_rollup_tool(a.tier, a.seed)],
          ["PEP values are not checked here (C06); qvality needs targets and decoys among the retained rows, so "
           "tables without >= 2 retained targets and >= 2 retained decoys are regenerated",
-          "scores are tie-free; protein level (FASTA) not exercised; max_workers=1 and default chunk sizes "
-          "(chunking is C05)",
+          "scores are tie-free (at most one exact 0.0 per case, in the zero-score classes only); protein level "
+          "(FASTA) not exercised; max_workers=1; only CONFIDENCE_CHUNK_SIZE is varied, the other chunk sizes keep "
+          "their defaults (chunking is C05)",
+          "entity names shared between level columns are generated only in the alike-level-names classes; "
+          "spectrum keys are never spelled like an entity name",
           "rollup_tool: PSM files are produced by assign_confidence itself; the tool is run with --level psm"])
